@@ -49,8 +49,8 @@ SAN(pos, m, L) == SANe(pos, m, L, Effect(pos, m))
 (* file rank file rank; a notation-shaped line is                          *)
 (*   [NBRQK]? [a-h]? [1-8]? x? [a-h] [1-8] (= [NBRQ])? [+#]?               *)
 (*   or O-O / O-O-O with an optional + or #;                               *)
-(* every SAN string this module produces is notation-shaped (LabelsAreShaped *)
-(* in the self-test), so no legal label may be refused as "invalid input". *)
+(* every SAN string is notation-shaped, so no legal label may be refused   *)
+(* as "invalid input" (checked on the real prompt: Trace_Engine Cli events).*)
 (***************************************************************************)
 FileSet == {"a","b","c","d","e","f","g","h"}
 RankSet == {"1","2","3","4","5","6","7","8"}
